@@ -33,7 +33,7 @@ def main():
         marks = [(False, True), (False, False), (True, True), (True, False)] if has_des else [(False, None), (True, None)]
         variants = [('sdw', 1)]
         for sname, S in subjects.items():
-          for build, copies in ([('sdw', 1), ('mapping', 1), ('sdw', 7)] if sname in ('atom', 'pred') else [('sdw', 1)]):
+          for build, copies in ([('sdw', 1), ('mapping', 1), ('sdw', 7), ('ticked', 1)] if sname in ('atom', 'pred') else [('sdw', 1)]):
             for w in worlds:
                 for k in range(len(marks) + 1):
                     for sub in itertools.combinations(marks, k):
@@ -56,6 +56,10 @@ def main():
                                         b.append(mp)
                                     else:
                                         b.append(sdwnode(sent, d, w))
+                            if build == 'ticked':
+                                # literals ticked by hand are still nodes of the branch: they close it and are read
+                                for n_ in list(b):
+                                    b.tick(n_)
                             tab.build()
                             rec['branches'] = len(tab)
                             rec['closed'] = bool(b.closed)
